@@ -7,6 +7,6 @@ def run(ctx):
     d = 24 if quick else 40
     cfg = dict(nt=1, nx=2, sync=False, rollback=False, faults=False, crash=False)
     queries = [('reach', 26, ['reach:tx1-applied']), ('stuck', d, ['bad:stranded'])]
-    proto.run(ctx, 'C09', [('1x2', cfg, queries, [])],
+    proto.run(ctx, 'C09', [('1x2', cfg, queries, ['c09'])],
               'BMC deadlock-freedom: no reachable state is a fixed point of every Reconcile (probe step per id) while a transaction '
               'with all targets connected is not final', {'bmc_depth': d})
